@@ -2,6 +2,7 @@ SPECIFICATION Spec
 CONSTANTS
  Rounds = 2
  HoldStreamInClose = FALSE
+ ReentrantRLock = FALSE
  CallbackUnderAssoc = FALSE
 INVARIANTS NoDeadlock LockOrder Mutex
 CHECK_DEADLOCK FALSE
